@@ -126,6 +126,8 @@ type World struct {
 	SrvEP    *simnet.Endpoint
 	SrvAddr  *net.UDPAddr
 	nextAddr int
+	// V6 makes FreshAddr hand out IPv6 client addresses.
+	V6 bool
 }
 
 // ServerName is the name in the server's certificate.
@@ -149,6 +151,11 @@ func NewWorld(keepLog bool, clientVerify *transport.VerifyConfig, tweak func(*tr
 // FreshAddr returns an unused client address.
 func (w *World) FreshAddr() *net.UDPAddr {
 	w.nextAddr++
+	if w.V6 {
+		ip := net.ParseIP("fd00:1234::")
+		ip[13], ip[14], ip[15] = byte(w.nextAddr>>16), byte(w.nextAddr>>8), byte(w.nextAddr)
+		return &net.UDPAddr{IP: ip, Port: 40000 + w.nextAddr%20000}
+	}
 	return simnet.Addr(w.nextAddr, 40000+w.nextAddr%20000)
 }
 
